@@ -59,6 +59,7 @@ type rtSource struct {
 	halfCloseEnds bool
 	halfClosed    chan struct{}
 	onAck         func(s *rtSource, a int64)
+	opened        bool // the proxy opened this stream
 }
 
 func (s *rtSource) Recv() (*adminservice.StreamWorkflowReplicationMessagesResponse, error) {
@@ -115,6 +116,7 @@ func (c *rtAdminClient) StreamWorkflowReplicationMessages(ctx context.Context, o
 		<-c.gate
 	}
 	c.src.ctx = ctx
+	c.src.opened = true
 	return c.src, nil
 }
 
